@@ -1,7 +1,7 @@
 SPECIFICATION Spec
 CONSTANTS
   N = 1
-  MaxTime = 10
+  MaxTime = 9
   MaxSkew = 1
   Budget = 0
   Variant = "ctxcheckfirst"
@@ -12,7 +12,7 @@ CONSTANTS
   MaxWaits = 99
   HistMax = 0
   Emit = FALSE
-  MaxAtt = 2
+  MaxAtt = 1
   Crashes = FALSE
   StartBy = 0
   StartFrom = 0
